@@ -315,7 +315,8 @@ class StateWorld(Run):
 
     def _p_setr(self, rng):
         # set_r on a full tableau: any r in [0,N] is legal for a valid tableau
-        return {"op": "setr", "slot": self._pick(rng), "r": rng.randrange(0, self.n + 1)}
+        return {"op": "setr", "slot": self._pick(rng), "r": rng.randrange(0, self.n + 1),
+                "np_int": rng.random() < 0.3}
 
     # observables ---------------------------------------------------------
     def gen_obs(self, rng, name, L=None):
@@ -768,7 +769,9 @@ class StateWorld(Run):
         name, st = self._state(op)
         if not 0 <= op["r"] <= self.n:
             raise Skip()
-        self._env_call(name, "setr", lambda: st.set_r(op["r"]))
+        # the rank may legitimately arrive as a numpy integer (it does after a jitted kernel)
+        rr = np.int64(op["r"]) if op.get("np_int") else op["r"]
+        self._env_call(name, "setr", lambda: st.set_r(rr))
         return self._digest(name)
 
     def _digest(self, name):
